@@ -14,7 +14,7 @@
    for the truncating default variant, the literal "within one unit" already at 2^25 (exceeded by < 2^-20). *)
 From Coq Require Import ZArith List Bool Floats Reals.
 From Clip Require Import base.Geom base.Winding base.FloatModel base.CSem gen.Gen_core
-  model.CoreSpec model.Pip proofs.Core_int proofs.Core_float proofs.Core_isect proofs.Core_area
+  model.CoreSpec model.Pip proofs.Core_int proofs.Core_float proofs.Core_isect proofs.Core_isect_acc proofs.Core_area
   proofs.Pip_walk proofs.Pip_loop.
 From Flocq Require Import Core.Core IEEE754.BinarySingleNaN IEEE754.PrimFloat.
 Import ListNotations.
@@ -83,6 +83,34 @@ Theorem C18_isect_parallel_exact_hi :
   fst (GetSegmentIntersectPt_hi a b c d ip) = negb (parallel a b c d).
 Proof. exact isect_parallel_exact_hi. Qed.
 Print Assumptions C18_isect_parallel_exact_hi.
+
+(* ------------------------------------------------------------------ accuracy for |coordinates| <= 2^25, properly crossing
+   segments: the result is inside the bounding box of the first segment and
+     - CLIPPER2_HI_PRECISION variant: within one unit per axis of the exact crossing (the property's clause, literally;
+       the whole clause [isect_ok]: parallelism exact, and this for properly crossing segments);
+     - default variant: within 1 + 2^-20 per axis -- [_partial]: the literal bound 1 is false for it
+       (C18_isect_accuracy_small_lo_refuted below: truncation of a value computed 2^-27 too low). *)
+Theorem C18_isect_accuracy_small_hi :
+  forall a b c d ip, coords_le (2 ^ 25) a b c d -> properly_cross a b c d = true ->
+  let r := GetSegmentIntersectPt_hi a b c d ip in
+  fst r = true /\ in_seg_box a b (snd r) = true /\ isect_within 1 1 a b c d (snd r) = true.
+Proof. exact isect_accuracy_small_hi. Qed.
+Print Assumptions C18_isect_accuracy_small_hi.
+
+Theorem C18_isect_clause_small_hi :
+  forall a b c d ip, coords_le (2 ^ 25) a b c d ->
+  let r := GetSegmentIntersectPt_hi a b c d ip in
+  isect_ok a b c d (fst r) (snd r) = true.
+Proof. exact isect_ok_small_hi. Qed.
+Print Assumptions C18_isect_clause_small_hi.
+
+Theorem C18_isect_accuracy_small_lo_partial :
+  forall a b c d ip, coords_le (2 ^ 25) a b c d -> properly_cross a b c d = true ->
+  let r := GetSegmentIntersectPt_lo a b c d ip in
+  fst r = true /\ in_seg_box a b (snd r) = true /\
+  isect_within (2 ^ 20 + 1) (2 ^ 20) a b c d (snd r) = true.
+Proof. exact isect_accuracy_small_lo. Qed.
+Print Assumptions C18_isect_accuracy_small_lo_partial.
 
 (* ------------------------------------------------------------------ the accuracy clause at 2^40 is false
    ([isect_within tn td a b c d ip]: ip within tn/td per axis of the exact crossing of the lines a-b, c-d) *)
